@@ -113,14 +113,22 @@ pub fn show_msg(frames: &[Msg]) -> String {
   format!("D({})", show_frames(frames.iter()))
 }
 
-/// Collect whole messages with `recv_multipart` until nothing arrives for `idle`.
-pub async fn collect_messages(s: &Socket, idle: Duration, hard: Duration, strip_first: bool) -> Vec<String> {
+/// Collect whole messages with `recv_multipart` until nothing arrives for `idle` *after* `done` was set
+/// (the scripted peer finished writing), or `hard` elapsed.
+pub async fn collect_messages_until(
+  s: &Socket,
+  idle: Duration,
+  hard: Duration,
+  strip_first: bool,
+  done: &std::sync::atomic::AtomicBool,
+) -> Vec<String> {
   let mut out = Vec::new();
   let t0 = Instant::now();
   loop {
     if t0.elapsed() > hard {
       break;
     }
+    let was_done = done.load(std::sync::atomic::Ordering::Acquire);
     match tokio::time::timeout(idle, s.recv_multipart()).await {
       Ok(Ok(mut frames)) => {
         if strip_first && !frames.is_empty() {
@@ -128,7 +136,11 @@ pub async fn collect_messages(s: &Socket, idle: Duration, hard: Duration, strip_
         }
         out.push(show_msg(&frames));
       }
-      Ok(Err(ZmqError::Timeout)) | Err(_) => break,
+      Ok(Err(ZmqError::Timeout)) | Err(_) => {
+        if was_done {
+          break;
+        }
+      }
       Ok(Err(e)) => {
         out.push(format!("E({})", err_class(&e)));
         break;
@@ -136,6 +148,11 @@ pub async fn collect_messages(s: &Socket, idle: Duration, hard: Duration, strip_
     }
   }
   out
+}
+
+pub async fn collect_messages(s: &Socket, idle: Duration, hard: Duration, strip_first: bool) -> Vec<String> {
+  let done = std::sync::atomic::AtomicBool::new(true);
+  collect_messages_until(s, idle, hard, strip_first, &done).await
 }
 
 pub async fn scenario(line: &str) -> String {
@@ -234,12 +251,15 @@ async fn rawpeer(p: &[&str]) -> String {
   })
   .await;
   let cuts_owned = cuts.to_string();
+  let done = std::sync::Arc::new(std::sync::atomic::AtomicBool::new(false));
+  let done2 = done.clone();
   let writer = tokio::spawn(async move {
     let _ = write_chunks(&mut wr, &data, &cuts_owned, gap).await;
+    done2.store(true, std::sync::atomic::Ordering::Release);
     wr
   });
   let strip = ty == "ROUTER";
-  let msgs = collect_messages(&sock, Duration::from_millis(350), Duration::from_secs(20), strip).await;
+  let msgs = collect_messages_until(&sock, Duration::from_millis(350), Duration::from_secs(30), strip, &done).await;
   let wr = writer.await.ok();
   let mut hs = "none";
   if let Some(m) = monitor.as_ref() {
